@@ -89,7 +89,7 @@ SUBTYPE_RANGE = {"c": (-2**7, 2**7), "C": (0, 2**8), "s": (-2**15, 2**15), "S": 
 @register
 class IntegerType(Contract):
     fn = "gfapy/numeric_array.py::NumericArray.integer_type"
-    props = ("C20", "C01")
+    props = ("C20", "C01", "C04", "C18")
     doc = ("smallest integer subtype that holds [lo, hi]: unsigned (C,S,I) iff lo >= 0, signed (c,s,i) otherwise, the first in that order whose "
            "range (int8..uint32 of the specification) contains both bounds; gfapy.ValueError iff none does")
 
@@ -141,7 +141,7 @@ def _equiv_contract(name, spec_fn, doc):
     class EQ(Contract):
         id = "Link_" + name
         fn = "gfapy/line/edge/link/equivalence.py::Equivalence." + name
-        props = ("C12",)
+        props = ("C12", "C09", "C03")
 
         def cases(self, ctx):
             g = ctx.gfapy
